@@ -48,6 +48,8 @@ def validate(ctx, wd, evs, tag, invs, classify_fn):
     res = tlc.run_tlc('RoutingTrace', cfg, workdir=wd, env={'TRACE_FILE': tf}, timeout=1800, cont=True)
     ctx.add_tlc(res, f'RoutingTrace[{tag}]')
     ctx.traces += len(evs)
+    if res.generated < len(evs):
+        raise tlc.TLCError(f'not all events were evaluated by TLC: {res.generated} < {len(evs)}')
     if not res.ok and not res.all_violations:
         raise tlc.TLCError('RoutingTrace failed without listing violations:\n' + res.stdout[-2000:])
     for inv, k in res.all_violations:
